@@ -289,7 +289,7 @@ def main(argv) -> int:
     chk.require_min("runs_exit_0", 50)
     chk.require_min("runs_exit_non_zero", 50)
     chk.require_min("reports_grammar_checked", 50)
-    chk.require_min("conservation_cases", chk.pick(60, 1500))
+    chk.require_min("conservation_cases", chk.pick(60, 300))
     chk.require_min("cli_runs", 10)
     chk.assume("one-line messages written without the report helper (argument errors) are accepted as long as stderr is non-empty and the exit status is 1")
     return chk.finish()
